@@ -571,6 +571,9 @@ class Engine:
         else:
             self.state = store
             self.state.set_value(self.initial_state)
+            # children of glob stores that the initial state creates
+            # start from their declared defaults, as in generate()
+            self.state.apply_defaults()
             # build the processes' views
             self.state.build_topology_views()
             # get processes and topology from the store
